@@ -56,7 +56,7 @@ def make_optimizer(ospec, params):
     return opt, sched, freq
 
 
-def run_stage(w, train, ospec, steps):
+def run_stage(w, train, ospec, steps, reseed=None):
     """the plain loop on the given condition objects with a fresh optimizer / scheduler"""
     reached = W.reach_learnables(train)
     names = [n for n, _ in reached]
@@ -67,6 +67,9 @@ def run_stage(w, train, ospec, steps):
     is_lbfgs = ospec["cls"] == "LBFGS"
     traj, losses, lr_traj = [], [], []
     for it in range(steps):
+        if reseed is not None:
+            torch.manual_seed(int(reseed) + it)       # same global RNG state at the start of every step as in the real run
+
         def closure():
             opt.zero_grad()
             loss = torch.zeros(1)
@@ -96,7 +99,7 @@ def run_stage(w, train, ospec, steps):
 def run(spec, steps, world=None):
     """-> dict(world, names, params, theta0, traj[step] (state after step+1 steps), opt, opt_state, lrs, losses)"""
     w = world if world is not None else W.build(spec)
-    return run_stage(w, w.train, spec["opt"], steps)
+    return run_stage(w, w.train, spec["opt"], steps, reseed=W.reseed_base(spec, 0))
 
 
 def run_staged(spec):
@@ -112,7 +115,7 @@ def run_staged(spec):
         else:
             W.build_conditions(w, st.get("bystanders", []), "s%db" % si)      # built, never trained
             train = W.build_conditions(w, st["conds"], "s%dc" % si)
-        r = run_stage(w, train, st["opt"], st["steps"])
+        r = run_stage(w, train, st["opt"], st["steps"], reseed=W.reseed_base(spec, si))
         wl = W.world_learnables(w)
         r["world_names"] = [n for n, _ in wl]
         r["world_state"] = W.clone_state([p for _, p in wl])
